@@ -60,7 +60,7 @@ def blotterProcessClosed (w : World) (mid : Nat) (book : Book) : World :=
     | some r =>
       let dh : Option Nat :=
         if book.winners = 0 then some 1
-        else if nWinners > book.winners then some nWinners else o.deadHeat
+        else if nWinners > book.winners then some nWinners else none
       let lr : Option Rat :=
         if o.sim.kind = .limit ∧ o.ladder = .lineRange then
           (match m.lineRangeResult with | some x => if x ≠ 0 then some x else o.lineResult | none => o.lineResult)
